@@ -1200,7 +1200,13 @@ impl Injection for Base<DataType, Optional> {
             (value::Value::Optional(arg), DataType::Optional(domain)) => {
                 From(domain).into(self.co_domain())?.value(arg)
             }
-            (arg, _) => self.checked_value(arg, value::Optional::some(arg.clone())),
+            (arg, domain) => {
+                // Convert the value into the wrapped type, as super_image does for the set
+                let converted = From(domain)
+                    .into(self.co_domain().data_type().clone())?
+                    .value(arg)?;
+                self.checked_value(arg, value::Optional::some(converted))
+            }
         }
     }
 }
@@ -1237,7 +1243,13 @@ impl Injection for Base<DataType, List> {
             (value::Value::List(arg), DataType::List(domain)) => {
                 From(domain).into(self.co_domain())?.value(arg)
             }
-            (arg, _) => self.checked_value(arg, value::List::from(vec![arg.clone()])),
+            (arg, domain) => {
+                // Convert the value into the element type, as super_image does for the set
+                let converted = From(domain)
+                    .into(self.co_domain().data_type().clone())?
+                    .value(arg)?;
+                self.checked_value(arg, value::List::from(vec![converted]))
+            }
         }
     }
 }
